@@ -599,6 +599,8 @@ def _analyse_own(chk):
 
 def analyse(chk):
     _analyse_own(chk)
+    chk.guard(lambda c_: core.include_findings(c_, 'C09', files=['ciderpress/dft/plans.py', 'ciderpress/dft/lcao_nldf_generator.py', 'ciderpress/dft/lcao_interpolation.py', 'ciderpress/pyscf/sdmx.py'], rules=['cache-alias'],
+                                               why='a per-spin cache entry that aliases a shared scratch buffer makes the potential of one spin channel use the intermediates of the other: vmat is no longer dE/dDM per spin'))
     chk.guard(lambda c_: core.include_findings(c_, 'C05', files=None, rules=None,
                                                why='the potential is assembled from the backward operators; an operator pair that is not an adjoint pair breaks vmat = dE/dDM'))
     chk.guard(lambda c_: core.include_findings(c_, 'C10', files=['ciderpress/lib/mod_cider/convolutions.c', 'ciderpress/lib/mod_cider/conv_interpolation.c', 'ciderpress/lib/mod_cider/fast_sdmx.c'], rules=None,
